@@ -610,3 +610,11 @@ fn resource_allocation_to_msg(
             .collect(),
     }
 }
+
+#[cfg(feature = "verif")]
+pub(crate) async fn verif_retract_check_process(
+    check_interval: Duration,
+    state_ref: WrappedRcRefCell<WorkerState>,
+) {
+    retract_check_process(check_interval, state_ref).await
+}
